@@ -21,8 +21,12 @@ Local Open Scope nat_scope.
 
 (* ------------------------------------------------------------------ ROM side *)
 Inductive cbgen : Type := CbNone | CbV1 | CbV21.
-(* r_types: the image types the device boots (secure-boot policy: a signed-only device refuses plain / CRC images) *)
-Record rom_cfg : Type := { r_cb : cbgen; r_hmac : bool; r_tzsize : nat; r_mcrc : bool; r_types : list Z }.
+(* r_types: the image types the device boots (secure-boot policy: a signed-only device refuses plain / CRC images);
+   r_ks: the device's key source for encrypted images as provisioned / configured: true = user key from the key store
+   (KEYSTORE, with or without key-store data embedded in the image), false = key derived from the master key (no key store
+   configured, OTP).  Which key real silicon selects for KEYSTORE without embedded data is not judged here: the convention
+   is the one pinned by the repository's golden files. *)
+Record rom_cfg : Type := { r_cb : cbgen; r_hmac : bool; r_tzsize : nat; r_mcrc : bool; r_types : list Z; r_ks : bool }.
 Record rom_keys : Type := { rk_rkth : list N; rk_user : list N }.
 
 Inductive obligation : Type :=
@@ -106,8 +110,8 @@ Definition ivt_agree (p s : list N) : bool := eqb_list (slice p 32 44) (slice s 
 Definition rom_cipher (s : list N) (off cbsize il : nat) : list N :=
   let p := off + cbsize in slice s p (p + 56) ++ slice s 56 off ++ slice s (p + 72) il.
 Definition rom_iv (s : list N) (off cbsize : nat) : list N := slice s (off + cbsize + 56) (off + cbsize + 72).
-Definition rom_image_key (keys : rom_keys) (s : list N) : list N :=
-  if ks_flag s then rk_user keys else rom_enc_key (rk_user keys).
+Definition rom_image_key (cfg : rom_cfg) (keys : rom_keys) : list N :=
+  if r_ks cfg then rk_user keys else rom_enc_key (rk_user keys).
 
 Definition min_off (cfg : rom_cfg) (ty : Z) : nat := if has_hmac cfg ty then 64 else 56.
 Definition rom_signed_v1 (cfg : rom_cfg) (keys : rom_keys) (ty : Z) (s : list N) : option rom_ok :=
@@ -126,7 +130,7 @@ Definition rom_signed_v1 (cfg : rom_cfg) (keys : rom_keys) (ty : Z) (s : list N)
                      else let msg := firstn il s in
                           let obl := chain_obl info ++ [ImageSig 1 (last (c1_certs info) []) msg (skipn il s)] in
                           if (ty =? 3)%Z
-                          then let plain := ctr_xcrypt (aes_enc_block (rom_image_key keys s)) (rom_iv s off cbsize)
+                          then let plain := ctr_xcrypt (aes_enc_block (rom_image_key cfg keys)) (rom_iv s off cbsize)
                                                        (rom_cipher s off cbsize il) in
                                if ivt_agree plain s then Some {| ro_plain := plain; ro_msg := msg; ro_obl := obl |} else None
                           else Some {| ro_plain := msg; ro_msg := msg; ro_obl := obl |}
@@ -248,15 +252,39 @@ Definition real_hash (alg : Z) (data : list N) : list N :=
 Definition real_crypto (sign : list N -> list N) : crypto :=
   {| k_sign := sign; k_hmac := real_hmac; k_ctr := real_ctr; k_hash := real_hash |}.
 
-(* export_mbi with the bytes handed to the signature provider *)
+(* Mbi_ExportMixinAppCertBlockManifest.collect_data (mbi_mixin.py:2185-2195): a digest manifest whose algorithm differs from
+   get_hash_type_from_signature_size(cert_block.signature_size) is refused (SPSDKError; unknown size: SPSDKValueError) *)
+Definition hash_type_of_sig (sg : nat) : option Z :=
+  if Nat.eqb sg 64 then Some 1%Z else if Nat.eqb sg 96 then Some 2%Z else if Nat.eqb sg 132 then Some 3%Z else None.
+Definition digest_guard (c : mbi_class) (x : mbi) : res unit :=
+  match provider c SCollect with
+  | Some ExportMixinAppCertBlockManifest =>
+      if has c MixinManifestDigest && negb (m_digest x =? 0)%Z
+      then match m_cert x with
+           | Some cb => match hash_type_of_sig (cert_sig cb) with
+                        | Some a => if (a =? m_digest x)%Z then Ok tt else Err E_REJECT
+                        | None => Err E_REJECT
+                        end
+           | None => Ok tt
+           end
+      else Ok tt
+  | _ => Ok tt
+  end.
+(* the exporter this property is about: the C01 export pipeline behind that guard (harmless if MbiModel.collect has it too) *)
+Definition export_c02 (k : crypto) (c : mbi_class) (x : mbi) : res (list N) :=
+  if negb (supported c) then Err E_UNSUPPORTED else
+  bind (validate c x) (fun _ => bind (digest_guard c x) (fun _ => export_mbi k c x)).
+
+(* export with the bytes handed to the signature provider *)
 Definition export_with_dts (k : crypto) (c : mbi_class) (x : mbi) : res (list N * list N) :=
   if negb (supported c) then Err E_UNSUPPORTED else
   bind (validate c x) (fun _ =>
+  bind (digest_guard c x) (fun _ =>
   bind (collect c x) (fun raw =>
   bind (encrypt k c x raw) (fun enc =>
   bind (post_encrypt c x enc) (fun enc2 =>
   bind (MbiModel.sign k c x enc2) (fun sg =>
-  bind (finalize k c x (fst sg) (snd sg)) (fun fin => Ok (flat fin, snd sg))))))).
+  bind (finalize k c x (fst sg) (snd sg)) (fun fin => Ok (flat fin, snd sg)))))))).
 
 (* ------------------------------------------------------------------ run_case *)
 Definition enc_obl (o : obligation) : value :=
@@ -273,9 +301,9 @@ Definition enc_rom (r : option rom_ok) : value :=
   end.
 Definition dec_cfg (v : value) : option rom_cfg :=
   match v with
-  | VList [VInt cb; VInt hm; VInt tzs; VInt mcrc; VInt ty] =>
+  | VList [VInt cb; VInt hm; VInt tzs; VInt mcrc; VInt ty; VInt ks] =>
       Some {| r_cb := if (cb =? 1)%Z then CbV1 else if (cb =? 2)%Z then CbV21 else CbNone; r_hmac := dec_bool hm;
-              r_tzsize := natz tzs; r_mcrc := dec_bool mcrc; r_types := [ty] |}
+              r_tzsize := natz tzs; r_mcrc := dec_bool mcrc; r_types := [ty]; r_ks := dec_bool ks |}
   | _ => None
   end.
 
